@@ -520,3 +520,48 @@ Proof.
 Qed.
 
 End EvBuild.
+
+(** ** element-wise operations on EV+ edges *)
+Section EvApply.
+Variable sz : nat -> nat.
+Hypothesis sz_pos : forall k, 1 <= sz k.
+
+Lemma emerge_levels L x x' k : 1 <= k <= L -> emerge L x x' k = x k.
+Proof.
+  intros Hk. unfold emerge.
+  destruct (Nat.leb_spec 1 k); destruct (Nat.leb_spec k L); cbn; try lia; reflexivity.
+Qed.
+
+Theorem ev_apply2_eval fr L f e1 e2 x : valid sz x ->
+  ev_eval L (ev_apply2 sz fr L f e1 e2) x = f (ev_eval L e1 x) (ev_eval L e2 x).
+Proof.
+  intros Hx. unfold ev_apply2. rewrite (ev_of_fun_eval sz sz_pos fr); [|  |exact Hx].
+  - rewrite (ev_eval_ext L e1 (emerge L x (fun _ => 0)) x), (ev_eval_ext L e2 (emerge L x (fun _ => 0)) x);
+      [reflexivity| |]; intros k Hk; now apply emerge_levels.
+  - intros a b Hab. rewrite (ev_eval_ext L e1 a b), (ev_eval_ext L e2 a b); auto.
+Qed.
+
+Theorem ev_apply2_reduced fr L f e1 e2 :
+  ev_reduced sz fr L (ev_apply2 sz fr L f e1 e2) = true.
+Proof. apply (ev_of_fun_reduced sz sz_pos). Qed.
+
+(** any reduced edge that is the pointwise combination IS this edge *)
+Theorem ev_apply2_unique fr L f e1 e2 e :
+  ev_reduced sz fr L e = true ->
+  (forall x, valid sz x -> ev_eval L e x = f (ev_eval L e1 x) (ev_eval L e2 x)) ->
+  e = ev_apply2 sz fr L f e1 e2.
+Proof.
+  intros Hr He. apply (ev_canon sz sz_pos fr L); [exact Hr|apply ev_apply2_reduced|].
+  intros x Hx. now rewrite ev_apply2_eval, He.
+Qed.
+
+Theorem ev_apply1_eval fr L f e x : valid sz x ->
+  ev_eval L (ev_apply1 sz fr L f e) x = f (ev_eval L e x).
+Proof.
+  intros Hx. unfold ev_apply1. rewrite (ev_of_fun_eval sz sz_pos fr); [| |exact Hx].
+  - rewrite (ev_eval_ext L e (emerge L x (fun _ => 0)) x); [reflexivity|].
+    intros k Hk. now apply emerge_levels.
+  - intros a b Hab. rewrite (ev_eval_ext L e a b); auto.
+Qed.
+
+End EvApply.
